@@ -2939,6 +2939,13 @@ namespace adept {
 	  iendvec -= (iendvec % Packet<Type>::size);
 	  iendvec += istartvec;
 	}
+#ifdef RJHOGAN_ADEPT_2_VERIF
+	{
+	  int* verif_c = internal::verif_simd_();
+	  verif_c[0] = 1; verif_c[1] = istartvec; verif_c[2] = iendvec;
+	  ++verif_c[4]; verif_c[5] = Packet<Type>::size;
+	}
+#endif
 	i[0] = 0;
 	rhs.set_location(i, ind);
 	Type* const __restrict t = data_; // Avoids an unnecessary load for some reason
@@ -2952,6 +2959,9 @@ namespace adept {
 	  // Vectorized version
 	  //	    rhs.next_packet(ind).put(data_+index)
 	  // FIX may need unaligned store
+#ifdef RJHOGAN_ADEPT_2_VERIF
+	  ++internal::verif_simd_()[3];
+#endif
 	  rhs.next_packet(ind).put(t+index);
 	}
 	for (int index = iendvec ; index < dimensions_[0]; ++index) {
@@ -3001,6 +3011,13 @@ namespace adept {
 	  iendvec -= (iendvec % Packet<Type>::size);
 	  iendvec += istartvec;
 	}
+#ifdef RJHOGAN_ADEPT_2_VERIF
+	{
+	  int* verif_c = internal::verif_simd_();
+	  verif_c[0] = 2; verif_c[1] = istartvec; verif_c[2] = iendvec;
+	  ++verif_c[4]; verif_c[5] = Packet<Type>::size;
+	}
+#endif
 
 
 	do {
@@ -3017,6 +3034,9 @@ namespace adept {
 	    // Vectorized version
 	    //	    rhs.next_packet(ind).put(data_+index);
 	    // FIX may need unaligned store
+#ifdef RJHOGAN_ADEPT_2_VERIF
+	    ++internal::verif_simd_()[3];
+#endif
 	    rhs.next_packet(ind).put(t+index);
 	  }
 	  for ( ; i[last] < dimensions_[last]; ++i[last], ++index) {
